@@ -11,24 +11,24 @@ CONSTANTS
   PolicyRoutesInFlows = FALSE
   GetReloads = FALSE
   DoctorFromDisk = FALSE
-  RestoreSkipped = TRUE
-  DevMC = "both"
+  RestoreSkipped = FALSE
+  DevMC = "engine"
   RecordHistory = FALSE
   Sampled = FALSE
   MaxHist = 0
-  TagsA = {"v1", "junk"}
-  TagsB = {"none", "v1"}
+  TagsA = {"none", "v1", "junk", "bad"}
+  TagsB = {"none", "rep", "dup", "lim"}
   TagsC = {"none"}
-  TagsQ = {"none"}
-  TagsG = {"none"}
-  PayA = {"none", "v2", "bad"}
-  PayB = {"none", "dup"}
-  PayQ = {"none"}
-  PayG = {"none", "gbad"}
-  WithGate = TRUE
+  TagsQ = {"none", "q1"}
+  TagsG = {"none", "gbad"}
+  PayA = {}
+  PayB = {}
+  PayQ = {}
+  PayG = {}
+  WithGate = FALSE
   WithFault = TRUE
-  WrongVerbs = FALSE
-  StateFiles = {}
+  WrongVerbs = TRUE
+  StateFiles = {"discover"}
   PolTagsMC = {}
   BodyTagsMC = {}
 SPECIFICATION SpecMC
